@@ -31,6 +31,7 @@ type Obj struct {
 	typ types.Type // allocated type (for naming fields / mutexes)
 	// race detection (C20): last write / reads per leaf path
 	acc map[string]*accInfo
+	label string // captured local variable of a library function (race detector)
 }
 type Ptr struct {
 	o    *Obj
